@@ -32,6 +32,10 @@ class Rule:
         return self._add("violation", key, where, what, work, extra)
 
     def anchor_missing(self, what):
+        if self.ctx.config != "workspace":
+            # feature-reduced configurations legitimately lack some anchors
+            self.note("anchor not present in configuration %s: %s" % (self.ctx.config, what))
+            return None
         return self._add("violation", "anchor-missing:" + what, "-",
                          "anchor missing: " + what + " (rule cannot be evaluated; failing closed)", 0, None)
 
@@ -50,8 +54,13 @@ class Ctx:
         self.assumptions = []
         self.trusted = []
         self.explanation = ""
+        self.config = "workspace"
+        self.configs_analysed = ["workspace"]
 
     def rule(self, rid, title, floor=0, kind=""):
+        if self.config != "workspace":
+            rid = "%s@%s" % (rid, self.config)
+            floor = 0
         r = Rule(self, rid, title, floor, kind)
         self.rules.append(r)
         return r
@@ -65,6 +74,11 @@ class Ctx:
         for i in items:
             if i not in self.assumptions:
                 self.assumptions.append(i)
+
+
+def _strip_cfg(key):
+    rule, _, rest = key.partition("|")
+    return rule.split("@", 1)[0] + "|" + rest
 
 
 def load_known():
@@ -103,7 +117,7 @@ def finish(ctx, cmd):
                 nontrivial.add(i["key"])
             if i["verdict"] == "ok":
                 discharged += 1
-            elif i["key"] in known_keys:
+            elif i["key"] in known_keys or _strip_cfg(i["key"]) in known_keys:
                 i["verdict"] = "known"
                 known_hit.append(i)
             else:
@@ -142,6 +156,7 @@ def finish(ctx, cmd):
             "trusted_base": ctx.trusted,
             "exhaustive": True,
             "analysed": dict(ctx.ws.stats, **{k: v for k, v in ctx.build_info.items()}),
+            "configurations": ctx.configs_analysed,
             "rules": [{"id": r.id, "title": r.title, "kind": r.kind, "floor": r.floor,
                        "instances": len(r.instances),
                        "violations": len([i for i in r.instances if i["verdict"] == "violation"]),
